@@ -404,7 +404,7 @@ mutual
     | .ffs zv v3 attrs rev rsv blocks ext files free, off, rs, hw, hs => by
       have hl := len_serFv _ hw
       simp only [wfFv, Bool.and_eq_true, beq_iff_eq, decide_eq_true_eq, and_assoc] at hw
-      obtain ⟨hz, _, _, _, _, hbl, _, _, _, _, _, h64, hfiles, _, _⟩ := hw
+      obtain ⟨hz, _, _, _, _, hbl, _, _, _, _, _, h64, hfiles, _⟩ := hw
       simp only [soundFv, Bool.and_eq_true, beq_iff_eq] at hs
       have hg : (if v3 = true then guidFFS3 else guidFFS2).length = 16 := by split <;> rfl
       simp only [treeFv, vFv, v_files _ _ files hfiles hs.2, List.append_nil]
